@@ -87,6 +87,37 @@ var wkbDests = []wkbDest{
 	{"Bound", func() (interface{}, func() orb.Geometry) { var v orb.Bound; return &v, func() orb.Geometry { return v } }},
 }
 
+// scanners (with their destinations) that live for the whole run
+type c01Scanner struct {
+	w   *wkb.GeometryScanner
+	e   *ewkb.GeometryScanner
+	get func() orb.Geometry
+}
+
+var c01Scanners = map[string]*c01Scanner{}
+
+func c01Persistent(pkg string, d wkbDest, prefix bool) *c01Scanner {
+	key := pkg + "/" + d.name
+	if prefix {
+		key += "/prefix"
+	}
+	if ps, ok := c01Scanners[key]; ok {
+		return ps
+	}
+	dest, get := d.mk()
+	ps := &c01Scanner{get: get}
+	switch {
+	case pkg == "wkb":
+		ps.w = wkb.Scanner(dest)
+	case prefix:
+		ps.e = ewkb.ScannerPrefixSRID(dest)
+	default:
+		ps.e = ewkb.Scanner(dest)
+	}
+	c01Scanners[key] = ps
+	return ps
+}
+
 // c01Event marshals g with one package / order / srid and observes every decode path.
 func c01Event(c *ctx, g orb.Geometry, pkg string, le bool, srid int, psrid int, allDests bool) {
 	in := newWkbIntern()
@@ -118,6 +149,7 @@ func c01Event(c *ctx, g orb.Geometry, pkg string, le bool, srid int, psrid int, 
 		V     map[string]interface{} `json:"v"`
 		Srid  int                    `json:"srid"`
 		Valid int                    `json:"valid"`
+		Reuse int                    `json:"reuse"` // 1: a scanner kept across events gave the same answer
 	}
 	var scans []scanRes
 	site := guard(func() {
@@ -214,6 +246,31 @@ func c01Event(c *ctx, g orb.Geometry, pkg string, le bool, srid int, psrid int, 
 					}
 					if serr == ewkb.ErrIncorrectGeometry {
 						r.Wrong = 1
+					}
+				}
+				// the same input through the scanner (and destination) that already served earlier events - a rows.Scan loop
+				r.Reuse = 1
+				if ps := c01Persistent(pkg, d, fr == "prefix"); ps != nil {
+					var perr error
+					var pg orb.Geometry
+					var psrid int
+					var pvalid bool
+					if ps.w != nil {
+						perr = ps.w.Scan(append([]byte{}, input...))
+						pg, pvalid = ps.w.Geometry, ps.w.Valid
+					} else {
+						perr = ps.e.Scan(append([]byte{}, input...))
+						pg, psrid, pvalid = ps.e.Geometry, ps.e.SRID, ps.e.Valid
+					}
+					same := (perr == nil) == (serr == nil) && (perr == nil || perr.Error() == serr.Error())
+					if same && perr == nil {
+						same = psrid == r.Srid && pvalid == (r.Valid == 1) && (orb.Equal(pg, got) || hasNaN(got))
+						if same && ps.get != nil && get != nil {
+							same = orb.Equal(ps.get(), get()) || hasNaN(get())
+						}
+					}
+					if !same {
+						r.Reuse = 0
 					}
 				}
 				if serr == nil {
